@@ -258,7 +258,7 @@ def _on_alarm(signum, frame):
     raise ExecutionTimeout(f"no result after {_timeout_s[0]} s")
 
 
-def run(coro, env: Optional[Env] = None):
+def run(coro, env: Optional[Env] = None, horizon: Optional[float] = None):
     """run a coroutine to completion on the process-wide stock event loop (used where nothing ever yields).
     Every execution has a horizon (SIGALRM): an implementation that loops forever surfaces as ExecutionTimeout, which the
     checks see as an unexpected exception type.  After the first timeout the horizon of this process drops to 1 s."""
@@ -271,7 +271,7 @@ def run(coro, env: Optional[Env] = None):
     use_alarm = threading.current_thread() is threading.main_thread()
     if use_alarm:
         signal.signal(signal.SIGALRM, _on_alarm)
-        signal.setitimer(signal.ITIMER_REAL, _timeout_s[0])
+        signal.setitimer(signal.ITIMER_REAL, horizon if horizon is not None else _timeout_s[0])
     try:
         if env is None:
             return _loop.run_until_complete(coro)
